@@ -77,6 +77,10 @@ class EdgeLandmark(BaseEdge):
         pose_type = type(self.vertices[0].pose)
         point_type = type(self.vertices[1].pose)
 
+        # The second vertex must be a point with the same number of spatial dimensions as the first pose
+        if point_type not in (PoseR2, PoseR3) or len(self.vertices[0].pose.position) != len(self.vertices[1].pose.position):
+            return False
+
         # The offset must be the same type as the first pose, and the estimate must be the same type as the second pose
         if not isinstance(self.offset, pose_type) or not isinstance(self.estimate, point_type):
             return False
